@@ -35,6 +35,16 @@ try:
     pk = " ".join(sorted({"./" + t if t != "." else "." for t in touched} | {"."}))
     rc2, out2 = sh("go test -vet=off -count=1 %s" % pk, cwd=wt)
     fails = [l for l in out2.splitlines() if l.startswith("--- FAIL")]
+    if rc2 != 0 and fails:
+        # timing/port-sensitive tests of the repository fail sporadically on a loaded machine:
+        # re-run the failed top-level tests alone, up to 3 times; only a persistent failure counts
+        names = sorted({re.match(r"--- FAIL: (\w+)", l).group(1) for l in fails if re.match(r"--- FAIL: (\w+)", l)})
+        meta["existing_tests_retried"] = names
+        for _ in range(3):
+            rc2, out2b = sh("go test -vet=off -count=1 -run '^(%s)$' %s" % ("|".join(names), pk), cwd=wt)
+            if rc2 == 0:
+                break
+            fails = [l for l in out2b.splitlines() if l.startswith("--- FAIL")]
     meta["existing_tests_cmd"] = "go test -vet=off -count=1 " + pk
     meta["existing_tests"] = "pass" if rc2 == 0 else "FAIL: " + "; ".join(fails)[:500]
     meta["demo_tests"] = tests
